@@ -536,6 +536,29 @@ func checkC15(c *C15Case) Result {
 			}
 		}
 		if ok {
+			// the six relational operators and BETWEEN with the second value as the literal
+			lit := lits[1]
+			cmp := c15Expected(vals[0], vals[1])
+			for _, op := range []string{"<", "<=", ">", ">=", "=", "!=", "BETWEEN"} {
+				holds := map[string]bool{"<": cmp < 0, "<=": cmp <= 0, ">": cmp > 0, ">=": cmp >= 0, "=": cmp == 0, "!=": cmp != 0, "BETWEEN": cmp == 0}[op]
+				sql := "SELECT k FROM ta WHERE k " + op + " " + lit
+				if op == "BETWEEN" {
+					sql += " AND " + lit
+				}
+				n := 0
+				if holds {
+					n = 1
+				}
+				out := Run(map[string]any{"ta": []any{map[string]any{"k": vals[0]}}}, sql, Opts{})
+				res.Execs++
+				if !out.OK() || len(out.Rows) != n {
+					res.Violation = fmt.Sprintf("%s over ta.k = %s\n  the order of the values says %d, so the row is kept %d time(s)\n  got %s", sql, c15Desc(vals[0]), cmp, n, out.Describe())
+					return res
+				}
+			}
+			res.Labels = append(res.Labels, "where-operators")
+		}
+		if ok {
 			res.Labels = append(res.Labels, "in-list")
 			for _, not := range []bool{false, true} {
 				sql := "SELECT k FROM ta WHERE k IN (" + strings.Join(lits, ", ") + ")"
